@@ -3,8 +3,8 @@
 import json, os, shutil, subprocess, sys
 V = os.path.dirname(os.path.dirname(os.path.abspath(__file__)))
 pid = sys.argv[1]
-rnd = 3 if '--round3' in sys.argv else (2 if '--round2' in sys.argv else 1)
-src = {1: '/tmp/seed_%s_out', 2: '/tmp/seed2_%s_out', 3: '/tmp/seed3_%s_out'}[rnd] % pid
+rnd = 4 if '--round4' in sys.argv else (3 if '--round3' in sys.argv else (2 if '--round2' in sys.argv else 1))
+src = {1: '/tmp/seed_%s_out', 2: '/tmp/seed2_%s_out', 3: '/tmp/seed3_%s_out', 4: '/tmp/seed4_%s_out'}[rnd] % pid
 for i in (1, 2):
     if not os.path.exists(os.path.join(src, 'patch%d.diff' % i)):
         continue
@@ -19,7 +19,7 @@ for i in (1, 2):
     meta['property'] = pid
     meta['round'] = rnd
     json.dump(meta, open(os.path.join(d, 'meta.json'), 'w'), indent=1)
-    r = subprocess.run([sys.executable, os.path.join(V, 'tools', 'try_seed.py'), d] + [a for a in sys.argv[2:] if a not in ('--round2', '--round3')], capture_output=True, text=True)
+    r = subprocess.run([sys.executable, os.path.join(V, 'tools', 'try_seed.py'), d] + [a for a in sys.argv[2:] if a not in ('--round2', '--round3', '--round4')], capture_output=True, text=True)
     out = r.stdout
     try:
         res = json.loads(out[:out.rindex('}') + 1])
